@@ -51,7 +51,7 @@ _RE_STATS = re.compile(r"(\d+) states generated, (\d+) distinct states found, (\
 _RE_DEPTH = re.compile(r"The depth of the complete state graph search is (\d+)")
 _RE_INV = re.compile(r"Invariant (\S+) is violated")
 _RE_PROP = re.compile(r"(?:Action property|Temporal properties|property) (\S+)? ?(?:is|were) violated")
-_RE_COV = re.compile(r"^<(\w+) line \d+, col \d+ to line \d+, col \d+ of module (\w+)>: (\d+):(\d+)")
+_RE_COV = re.compile(r"^<(\w+) line \d+, col \d+ to line \d+, col \d+ of module (\w+)(?: \([\d ]+\))?>: (\d+):(\d+)")
 
 
 def run(module, cfg_text, workdir, workers=16, timeout=600, coverage=False, simulate=None,
